@@ -630,7 +630,7 @@ pub fn long_multibyte_text(k: usize) -> String {
     s
 }
 
-pub const APP_NAMES: [&str; 8] = ["", "a", "ab", "abc", "abcd", "a\0b", "\0", "\x7f~ Z"];
+pub const APP_NAMES: [&str; 13] = ["", "a", "ab", "abc", "abcd", "a\0b", "\0", "\x7f~ Z", "PLI ", " ", "    ", " ab", "a  "];
 
 pub fn app_spaces(tier: Tier, _seed: u64) -> Vec<CfgSpace> {
     let ssrcs: Vec<u32> = tier.pick(U32_EDGE.to_vec(), u32_walk());
